@@ -26,7 +26,71 @@ def translate(translation, point, base_ids):
     return {k: ns[k] for k in base_ids if k in ns}
 
 
+def base_valid(base_info, bp):
+    """The base model's validity expression evaluated in python at base parameters bp."""
+    txt = getattr(base_info, "valid", None)
+    if not txt:
+        return True
+    import re
+    py = txt.replace("&&", " and ").replace("||", " or ")
+    py = re.sub(r"!(?!=)", " not ", py)
+    try:
+        return bool(eval(py, {"__builtins__": {}}, dict(_namespace(), **bp)))
+    except Exception:
+        return True
+
+
+def validity_scan(program, kind, ndraw=400):
+    """Monodisperse scan: where the base model's validity expression holds at the translated parameters the
+    reparameterised model equals the base model, elsewhere it contributes nothing."""
+    from sasmodels import core
+    from sasmodels.direct_model import call_kernel
+    from contracts import c16
+    tag, base, pars, translation, insert_after, kinds = program
+    base_info, info = c16.build(program)
+    if not getattr(base_info, "valid", None):
+        return False, {}
+    rng = np.random.RandomState(7)
+    m_new, m_base = core.build_model(info), core.build_model(base_info)
+    q = np.array([0.01, 0.1])
+    qv = [q] if kind == "Iq" else [q, q[::-1] * 0.7]
+    k_new, k_base = m_new.make_kernel(qv), m_base.make_kernel(qv)
+    base_ids = [p.id for p in base_info.parameters.kernel_parameters]
+    for _ in range(ndraw):
+        point = {}
+        for p in info.parameters.kernel_parameters:
+            point[p.id] = rng.uniform(10, 70) if p.type == "orientation" else p.default * rng.uniform(0.2, 5.0)
+        bp = translate(translation, point, base_ids)
+        for k_ in base_ids:
+            bp.setdefault(k_, point.get(k_))
+        ok = base_valid(base_info, bp)
+        got = np.asarray(call_kernel(k_new, dict(point, scale=1.0, background=0.0)))
+        if ok:
+            want = np.asarray(call_kernel(k_base, dict(bp, scale=1.0, background=0.0)))
+            if not np.allclose(got, want, rtol=1e-7):
+                return True, {"call": "reparameterised %s at %s (valid for the base model)" % (tag, point),
+                              "real": got.tolist(), "spec_base_model": want.tolist()}
+        elif np.any(np.nan_to_num(got, nan=0.0) != 0.0):
+            # an invalid point contributes nothing: the library returns the background (0 here) or NaN for it
+            return True, {"call": "reparameterised %s at %s: base parameters %s violate the base model's validity "
+                                  "expression %r" % (tag, point, bp, base_info.valid),
+                          "real": got.tolist(), "spec": "no contribution (background only)"}
+    return False, {}
+
+
 def replay(program, kind, seed=0):
+    """Several parameter draws (wide ranges, so that validity boundaries are crossed)."""
+    last = validity_scan(program, kind)
+    if last[0]:
+        return last
+    for s in range(seed, seed + 6):
+        last = _replay_once(program, kind, s)
+        if last[0]:
+            return last
+    return last
+
+
+def _replay_once(program, kind, seed=0):
     from sasmodels import core
     from sasmodels.direct_model import call_kernel, call_Fq, get_mesh
     from contracts import c16
@@ -45,7 +109,7 @@ def replay(program, kind, seed=0):
         elif p.type == "sld":
             point[p.id] = rng.uniform(0.5, 5)
         else:
-            point[p.id] = p.default * rng.uniform(0.8, 1.3)
+            point[p.id] = p.default * (rng.uniform(0.8, 1.3) if seed == 0 else rng.uniform(0.3, 4.0))
     new_ids = [p[0] for p in pars]
     disp = {}
     sizes = [7, 4, 3]
@@ -72,13 +136,18 @@ def replay(program, kind, seed=0):
         for k in base_ids:
             if k not in bp:
                 bp[k] = x[k]
+        if not base_valid(base_info, bp):
+            continue            # invalid mesh points contribute nothing
         F, F2, reff, vshell, ratio = call_Fq(k_base, dict(bp, scale=1.0, background=0.0))
         # F2 is <F^2>/V normalised by the monodisperse shell volume: undo it
         tot_w += w
         tot_i = tot_i + w * np.asarray(F2)
         tot_v += w * vshell
+    if tot_w == 0:
+        # no valid mesh point: nothing to compare (the kernel's 0/0 convention is not part of the property)
+        return False, {"note": "all mesh points invalid"}
     expect = tot_i / tot_v if tot_v != 0 else tot_i / tot_w
-    bad = not np.allclose(got, expect, rtol=1e-7)
+    bad = not np.allclose(got, expect, rtol=1e-7, equal_nan=False)
     return bool(bad), {"call": "reparameterised %s (%s), %s kernel, new parameters %s, dispersity %s"
                                % (base, tag, kind, point, disp),
                        "real": got.tolist(), "spec_base_model_over_mesh": np.asarray(expect).tolist()}
